@@ -30,6 +30,13 @@ THEOREMS = ["Claripy.Props.C12.C12_mro_child", "Claripy.Props.C12.C12_mro_compos
             "Claripy.Props.C12.C12_composite_history_invariant", "Claripy.Props.C12.C12_composite_history_given_reabsorb_partial",
             "Claripy.Props.C12.C12_composite_history_one_owner_partial", "Claripy.Solver.comp_hist3", "Claripy.Solver.ownersOk_of_oneName",
             "Claripy.Solver.compSatisfiable_solvers",
+            # _reabsorb_solver re-establishes CInv (split, update branch, replace branch); arbitrary histories
+            "Claripy.Props.C12.C12_reabsorb_keeps_invariant", "Claripy.Props.C12.C12_composite_history",
+            "Claripy.Props.C12.C12_composite_history_keeps_invariant", "Claripy.Props.C12.C12_call_correct",
+            "Claripy.Solver.reabsorbKeeps", "Claripy.Solver.reabsorbKeeps_of_replace", "Claripy.Solver.reabsorbReplaceKeeps",
+            "Claripy.Solver.childSplit_spec", "Claripy.Solver.split_go_spec", "Claripy.Solver.child_add_marks",
+            "Claripy.Solver.mcInv_of_trivMarks", "Claripy.Solver.part_marker_const", "Claripy.Solver.childUpdate_step",
+            "Claripy.Solver.storeAll_get_part", "Claripy.Solver.storeAll_get_other",
             "Claripy.Solver.CInv.of_world", "Claripy.Solver.compQuery_keeps", "Claripy.Solver.compTruth_keeps",
             "Claripy.Solver.solverForNames_one", "Claripy.Solver.child_truth_foot", "Claripy.Solver.MCInv.evalExh",
             "Claripy.Solver.MCInv.opt"]
